@@ -1,5 +1,6 @@
 import Driver.Proto
 import PdtVerif.Model.Slicing
+import PdtVerif.Model.SlicingDir
 import PdtVerif.Spec.SlicePolicy
 /-! Driver for C10. One request carries one input and a grid of configurations; the reply lists,
 in grid order (lobes × window types × valid × lens options, last fastest), the model's output
@@ -109,7 +110,22 @@ def c10Tokens : Handler := fun c => do
 
 /-- Directory level: one utterance at a time, the way `_chunk_torch_spect_data_dir_do_work` calls the
 slicer (`N = 1`, no lengths) and the token chunker (the utterance's tokens against every window).
-Reply per utterance: model windows, spec windows, and per spec window the specified token chunk. -/
+Reply per utterance: model windows, spec windows, and per spec window the specified token chunk; with the
+command-line options of the run (`pad_mode`, `pad_constant_ali`, `format`, `prefix`, `suffix`, `has_ali`,
+`has_ref`, utterance `id`) also `model_files` — everything the model of the whole worker (`dirWorker`) writes:
+base name, frames (as indices into the utterance, `-1` = the pad constant), alignment, tokens — and
+`spec_files` — per spec window the name and C09's pad-then-slice (`chunkSeq`) of the frame indices and of the
+alignment, `null` where the chunker's domain excludes the window (reflect padding not shorter than the
+utterance). -/
+def parseMode (s : String) : Except String PadSlice.Mode :=
+  match s with
+  | "constant" => .ok .constant
+  | "replicate" => .ok .replicate
+  | "reflect" => .ok .reflect
+  | _ => .error s!"bad pad mode {s}"
+
+def charsJ (l : List Char) : Json := strJ (String.ofList l)
+
 def c10Dir : Handler := fun c => do
   let policy ← getStr c "policy"
   let wt ← getStr c "wt" >>= parseWt
@@ -118,11 +134,38 @@ def c10Dir : Handler := fun c => do
   let partialOk ← getBool c "partial"
   let retain ← getBool c "retain"
   let utts ← getList pure c "utts"
+  -- the command line (absent in requests of the older form: then no file-level reply)
+  let withFiles := (fieldOpt c "format").isSome
+  let padMode : Option PadSlice.Mode ← match fieldOpt c "pad_mode" with
+    | none => pure none
+    | some j => if j.isNull then pure none else (some <$> (jsonToStr j >>= parseMode))
+  let padAli : Int ← match fieldOpt c "pad_constant_ali" with
+    | none => pure 0
+    | some j => jsonToInt j
+  let fmt : Fmt := match fieldOpt c "format" with
+    | some (Json.str "default") => defaultFmt
+    | _ => idxFmt
+  let pre : String ← match fieldOpt c "prefix" with
+    | none => pure ""
+    | some j => jsonToStr j
+  let suf : String ← match fieldOpt c "suffix" with
+    | none => pure ""
+    | some j => jsonToStr j
+  let hasAli : Bool ← match fieldOpt c "has_ali" with
+    | none => pure true
+    | some j => jsonToBool j
+  let hasRef : Bool ← match fieldOpt c "has_ref" with
+    | none => pure true
+    | some j => jsonToBool j
+  let mode := padMode.getD .constant
   let mut out : Array Json := #[]
   for u in utts do
     let T ← getNat u "T"
     let ali ← getList jsonToInt u "ali"
     let ref ← getList parseTok u "ref"
+    let uid : String ← match fieldOpt u "id" with
+      | none => pure ""
+      | some j => jsonToStr j
     let R := ref.length
     let (inp, specW) := match policy with
       | "fixed" => (Input.feats 1 T, SlicePolicy.fixed lobe wt vo [T])
@@ -144,8 +187,34 @@ def c10Dir : Handler := fun c => do
     let chunks := match dirChunks pol wt vo lobe partialOk retain ⟨T, ali, ref⟩ with
       | .ok cs => listJ (fun (c : Win × List Tok) => objJ [("win", winJ c.1), ("toks", listJ tokJ c.2)]) cs
       | .error .shape => strJ "error:shape"
-    out := out.push (objJ [("model", model), ("spec", listJ winJ specW),
-      ("tokens", listJ (listJ tokJ) toks), ("model_chunks", chunks)])
+    let mut fields : List (String × Json) := [("model", model), ("spec", listJ winJ specW),
+      ("tokens", listJ (listJ tokJ) toks), ("model_chunks", chunks)]
+    if withFiles then
+      let frames : List Int := (List.range T).map Int.ofNat
+      let src : Source Int := ⟨frames, if hasAli then some ali else none, if hasRef then some ref else none⟩
+      let optJ {β} (f : β → Json) (o : Option β) : Json := match o with
+        | none => Json.null
+        | some x => f x
+      let files := match dirWorker fmt pre.toList suf.toList uid.toList pol wt lobe padMode (-1 : Int) padAli
+          partialOk retain src with
+        | .ok ws => listJ (fun (w : Written Int) => objJ [("base", charsJ w.base), ("feat", listJ intJ w.feat),
+            ("ali", optJ (listJ intJ) w.ali), ("ref", optJ (listJ tokJ) w.ref)]) ws
+        | .error .missing => strJ "error:missing"
+        | .error (.slicer _) => strJ "error:slicer"
+        | .error (.chunker .value) => strJ "error:ValueError"
+        | .error (.chunker .runtime) => strJ "error:RuntimeError"
+        | .error (.chunker .notimpl) => strJ "error:NotImplementedError"
+        | .error .lens => strJ "error:AssertionError"
+      let legal (w : Win) : Bool :=
+        PadSlice.legalPad mode T (PadSlice.needLeft w.start w.stop) (PadSlice.needRight T w.start w.stop)
+      let specFiles := specW.zipIdx.map fun (w, n) =>
+        if legal w then
+          objJ [("base", charsJ (baseName fmt pre.toList suf.toList uid.toList n w)),
+            ("feat", listJ intJ (PadSlice.chunkSeq mode (-1 : Int) frames w.start w.stop)),
+            ("ali", if hasAli then listJ intJ (PadSlice.chunkSeq mode padAli ali w.start w.stop) else Json.null)]
+        else Json.null
+      fields := fields ++ [("model_files", files), ("spec_files", Json.arr specFiles.toArray)]
+    out := out.push (objJ fields)
   pure (objJ [("utts", Json.arr out)])
 
 def main : IO Unit := Proto.run [("c10.slice", c10Slice), ("c10.tokens", c10Tokens), ("c10.dir", c10Dir)]
